@@ -90,7 +90,7 @@ def multilabel_with(vocab, tags):
 class Multilabel:
     target = "contracts.encoding:multilabel_with"
     types = {"vocab": "List[Obj:soundevent.data.tags.Tag]", "tags": "List[Obj:soundevent.data.tags.Tag]"}
-    result = "Opq:NDArray"
+    result = "NDArray"
 
     def requires(vocab):
         return no_duplicates(vocab)
@@ -110,7 +110,7 @@ def prediction_with(vocab, tags):
 class Prediction:
     target = "contracts.encoding:prediction_with"
     types = {"vocab": "List[Obj:soundevent.data.tags.Tag]", "tags": "List[Obj:soundevent.data.predicted_tags.PredictedTag]"}
-    result = "Opq:NDArray"
+    result = "NDArray"
 
     def requires(vocab):
         return no_duplicates(vocab)
